@@ -768,6 +768,9 @@ namespace fastscapelib
             m_parent_basins[m_root] = m_root;
         }
 
+        // basins connected to the root (i.e., that may drain to a base level node)
+        std::vector<std::uint8_t> connected(nbasins, 0);
+
         while (m_reorder_stack.size())
         {
             size_type node, parent;
@@ -775,6 +778,7 @@ namespace fastscapelib
             std::tie(node, parent, pass_elevation, parent_pass_elevation) = m_reorder_stack.back();
             m_reorder_stack.pop_back();
 
+            connected[node] = 1;
 
             for (size_t i = m_nodes_connects_ptr[node];
                  i < m_nodes_connects_ptr[node] + m_nodes_connects_size[node];
@@ -816,6 +820,14 @@ namespace fastscapelib
                 }
             }
         }
+
+        // discard the tree edges between basins that cannot drain to any base
+        // level node (e.g., enclosed by masked nodes): those have not been oriented
+        m_tree.erase(std::remove_if(m_tree.begin(),
+                                    m_tree.end(),
+                                    [&](size_type l_id)
+                                    { return !connected[m_edges[l_id].link[0]]; }),
+                     m_tree.end());
     }
 }
 
